@@ -873,7 +873,15 @@ static void* reb_simulation_integrate_raw(void* args){
         }
 #endif //SERVER
         if (r->simulationarchive_filename){ reb_simulationarchive_heartbeat(r);}
+        const double t_before_step = r->t;
+        const double dt_before_step = r->dt;
         reb_simulation_step(r); 
+        if (r->status<0 && r->t==t_before_step && r->dt==dt_before_step && thread_info->tmax!=INFINITY){
+            // The step neither advanced the time nor changed the timestep (t+dt==t in floating point, dt==0, or
+            // a step that is rejected at the minimum timestep). All further steps would do the same. Exit with an error instead of looping forever.
+            reb_simulation_error(r,"Integration is not making progress: the last step did not advance the time and left the timestep unchanged (timestep too small compared to the current time, zero, or rejected at the minimum timestep). Exiting.");
+            r->status = REB_STATUS_GENERIC_ERROR;
+        }
         reb_run_heartbeat(r);
         if (reb_sigint){
             r->status = REB_STATUS_SIGINT;
